@@ -7,8 +7,10 @@
    Errors.  In C an error is sticky: parse_error() records the FIRST error (location, message),
    sets tok->kind = TOK_ERROR, after which next_token() is a no-op, every loop exits and
    parse_c_type() returns -1.  The model short-circuits instead: `Err code pos` is that first
-   error.  The few memory accesses the C code still performs between the first error and the
-   return are modelled explicitly where they exist (see `args_loop`).
+   error.  Between the first error and the return the C code performs no access to the output
+   buffer (checked path by path: after an error every write_ds fails without writing, `p_current`
+   is never dereferenced again, and since commit bdb4859 parse_sequel returns at once when an
+   argument fails to parse instead of reading tok->output[arg] with arg == -1).
 
    Memory.  `t_out` is output[0 .. output_index).  write_ds() appends (bounded by output_size);
    every other store `tok->output[i] = ..` / `*p_current = ..` and every load `tok->output[i]`
@@ -184,20 +186,20 @@ Definition err_code (e : err) : N :=
   | E_out_of_fuel => 99
   end%N.
 
-(* Err e pos oob: first error e at offset pos; oob = the C code went on to read
-   tok->output[-1] before returning (parse_sequel line 338 with arg == -1) *)
+(* Err e pos: first error e at offset pos.  Fault: an access tok->output[i] with i outside
+   [0, output_index) — C07_no_fault (Props.v) shows that it never happens *)
 Inductive res (A : Type) :=
 | Ok (a : A)
-| Err (e : err) (pos : nat) (oob_read : bool)
+| Err (e : err) (pos : nat)
 | Fault.
 Arguments Ok {A} a.
-Arguments Err {A} e pos oob_read.
+Arguments Err {A} e pos.
 Arguments Fault {A}.
 
 Definition bind {A B} (r : res A) (f : A -> res B) : res B :=
   match r with
   | Ok a => f a
-  | Err e p o => Err e p o
+  | Err e p => Err e p
   | Fault => Fault
   end.
 Notation "'do' x <- r ; k" := (bind r (fun x => k))
@@ -205,7 +207,7 @@ Notation "'do' x <- r ; k" := (bind r (fun x => k))
 Notation "'do' ' p <- r ; k" := (bind r (fun x => match x with p => k end))
   (at level 200, p pattern, r at level 100, k at level 200).
 
-Definition parse_error {A} (t : tok) (e : err) : res A := Err e (t_pos t) false.
+Definition parse_error {A} (t : tok) (e : err) : res A := Err e (t_pos t).
 
 (* ---------------------------------------------------------------- opcodes (parse_c_type.h) *)
 Definition OP_PRIMITIVE := 1.   Definition OP_POINTER := 3.      Definition OP_ARRAY := 5.
@@ -254,7 +256,8 @@ Definition get_common_type (s : str) : option str :=
 
 (* ---------------------------------------------------------------- the type context *)
 (* what parse_c_type.c reads of struct _cffi_type_context_s: four tables sorted by name
-   (searched with search_sorted, C25), the union flag of struct_unions, and for globals
+   (searched with search_sorted, C25; search_in_xxx returns -1 at once on an empty table, which
+   is also what search_sorted returns), the union flag of struct_unions, and for globals
    the opcode kind and what the constant's fetch function returns *)
 Inductive gkind :=
 | GInt (is_enum : bool) (neg : Z) (value : Z)   (* OP_CONSTANT_INT / OP_ENUM; g->address(&gc) = neg, gc.value *)
@@ -483,6 +486,63 @@ Fixpoint modifiers (fuel : nat) (t : tok) (mlen msign : Z) : res (tok * Z * Z) :
     end
   end.
 
+(* the keyword/identifier dispatch of parse_complete without modifiers (716–799), before the
+   common next_token (800): (token state, t1, t1complex).  pf is parse_c_type_from, used for
+   the common-type replacement (846) *)
+Definition base_plain (pf : str -> list Z -> res (list Z * Z)) (t2 : tok) : res (tok * Z * Z) :=
+  match t_kind t2 with
+  | KKw K_int => Ok (t2, OP OP_PRIMITIVE PRIM_INT, 0)
+  | KKw K_char => Ok (t2, OP OP_PRIMITIVE PRIM_CHAR, 0)
+  | KKw K_void => Ok (t2, OP OP_PRIMITIVE PRIM_VOID, 0)
+  | KKw K_Bool => Ok (t2, OP OP_PRIMITIVE PRIM_BOOL, 0)
+  | KKw K_float => Ok (t2, OP OP_PRIMITIVE PRIM_FLOAT, OP OP_PRIMITIVE PRIM_FLOATCOMPLEX)
+  | KKw K_double => Ok (t2, OP OP_PRIMITIVE PRIM_DOUBLE, OP OP_PRIMITIVE PRIM_DOUBLECOMPLEX)
+  | KIdent =>
+    match search_sorted (c_typenames cx) (tok_text t2) with
+    | Some n => Ok (t2, OP OP_TYPENAME (Z.of_nat n), 0)
+    | None =>
+      match search_standard_typename (tok_text t2) with
+      | Some n => Ok (t2, OP OP_PRIMITIVE n, 0)
+      | None =>
+        match get_common_type (tok_text t2) with
+        | Some replacement =>
+          (* parse_common_type_replacement (846): a nested parse_c_type_from on the
+             replacement text, appending to the same output *)
+          match pf replacement (t_out t2) with
+          | Ok (out', n) => Ok (with_out t2 out', OP OP_NOOP n, 0)
+          | Err _ _ => Err E_internal (t_pos t2)
+          | Fault => Fault
+          end
+        | None => parse_error t2 E_undefined_type
+        end
+      end
+    end
+  | KKw K_struct | KKw K_union =>
+    let is_union := is_kw t2 K_union in
+    let t3 := next_token t2 in
+    if negb (kind_eqb (t_kind t3) KIdent) then parse_error t3 E_su_name
+    else
+      match search_sorted (map fst (c_structs cx)) (tok_text t3) with
+      | None =>
+        if negb is_union && str_eqb (tok_text t3) (s2l "_IO_FILE")
+        then Ok (t3, OP OP_STRUCT_UNION IO_FILE_STRUCT, 0)
+        else parse_error t3 E_undefined_su
+      | Some n =>
+        if xorb (snd (nth n (c_structs cx) ([], false))) is_union
+        then parse_error t3 E_wrong_kind
+        else Ok (t3, OP OP_STRUCT_UNION (Z.of_nat n), 0)
+      end
+  | KKw K_enum =>
+    let t3 := next_token t2 in
+    if negb (kind_eqb (t_kind t3) KIdent) then parse_error t3 E_enum_name
+    else
+      match search_sorted (c_enums cx) (tok_text t3) with
+      | None => parse_error t3 E_undefined_enum
+      | Some n => Ok (t3, OP OP_ENUM (Z.of_nat n), 0)
+      end
+  | _ => parse_error t2 E_identifier
+  end.
+
 Definition start_tok (input : str) (out : list Z) : tok :=
   next_token (mkTok input O O KStart out).
 
@@ -566,13 +626,7 @@ with args_loop (fuel : nat) (t : tok) (arg_next : Z) (flags : Z) {struct fuel}
         do t2 <- set_out t1 arg_next oarg;
         if negb (is_ch t2 c_comma) then Ok (t2, arg_next + 1, flags)
         else args_loop f (next_token t2) (arg_next + 1) flags
-      | Err e p _ =>
-        (* C goes on with arg == -1: it reads tok->output[-1] (338), stores oarg at
-           output[arg_next] (351), leaves the loop because tok->kind == TOK_ERROR, stores
-           FUNCTION_END at output[arg_next+1] (357) and returns the error (361).  The two
-           stores are inside the slots reserved before the loop iff: *)
-        if (0 <=? arg_next) && (arg_next + 1 <? Z.of_nat (List.length (t_out t)))
-        then Err e p true else Fault
+      | Err e p => Err e p          (* if (arg < 0) return -1;  (338) *)
       | Fault => Fault
       end
   end
@@ -589,58 +643,7 @@ with parse_complete (fuel : nat) (t : tok) {struct fuel} : res (tok * Z) :=
          do '(t3, op) <- base_with_modifiers t2 mlen msign; Ok (t3, op, 0)
        else
          do '(t3, op, cplx) <-
-           match t_kind t2 with
-           | KKw K_int => Ok (t2, OP OP_PRIMITIVE PRIM_INT, 0)
-           | KKw K_char => Ok (t2, OP OP_PRIMITIVE PRIM_CHAR, 0)
-           | KKw K_void => Ok (t2, OP OP_PRIMITIVE PRIM_VOID, 0)
-           | KKw K_Bool => Ok (t2, OP OP_PRIMITIVE PRIM_BOOL, 0)
-           | KKw K_float => Ok (t2, OP OP_PRIMITIVE PRIM_FLOAT, OP OP_PRIMITIVE PRIM_FLOATCOMPLEX)
-           | KKw K_double => Ok (t2, OP OP_PRIMITIVE PRIM_DOUBLE, OP OP_PRIMITIVE PRIM_DOUBLECOMPLEX)
-           | KIdent =>
-             match search_sorted (c_typenames cx) (tok_text t2) with
-             | Some n => Ok (t2, OP OP_TYPENAME (Z.of_nat n), 0)
-             | None =>
-               match search_standard_typename (tok_text t2) with
-               | Some n => Ok (t2, OP OP_PRIMITIVE n, 0)
-               | None =>
-                 match get_common_type (tok_text t2) with
-                 | Some replacement =>
-                   (* parse_common_type_replacement (846): a nested parse_c_type_from on the
-                      replacement text, appending to the same output *)
-                   match parse_from f replacement (t_out t2) with
-                   | Ok (out', n) => Ok (with_out t2 out', OP OP_NOOP n, 0)
-                   | Err _ _ o => Err E_internal (t_pos t2) o
-                   | Fault => Fault
-                   end
-                 | None => parse_error t2 E_undefined_type
-                 end
-               end
-             end
-           | KKw K_struct | KKw K_union =>
-             let is_union := is_kw t2 K_union in
-             let t3 := next_token t2 in
-             if negb (kind_eqb (t_kind t3) KIdent) then parse_error t3 E_su_name
-             else
-               match search_sorted (map fst (c_structs cx)) (tok_text t3) with
-               | None =>
-                 if negb is_union && str_eqb (tok_text t3) (s2l "_IO_FILE")
-                 then Ok (t3, OP OP_STRUCT_UNION IO_FILE_STRUCT, 0)
-                 else parse_error t3 E_undefined_su
-               | Some n =>
-                 if xorb (snd (nth n (c_structs cx) ([], false))) is_union
-                 then parse_error t3 E_wrong_kind
-                 else Ok (t3, OP OP_STRUCT_UNION (Z.of_nat n), 0)
-               end
-           | KKw K_enum =>
-             let t3 := next_token t2 in
-             if negb (kind_eqb (t_kind t3) KIdent) then parse_error t3 E_enum_name
-             else
-               match search_sorted (c_enums cx) (tok_text t3) with
-               | None => parse_error t3 E_undefined_enum
-               | Some n => Ok (t3, OP OP_ENUM (Z.of_nat n), 0)
-               end
-           | _ => parse_error t2 E_identifier
-           end;
+base_plain (parse_from f) t2;
          Ok (next_token t3, op, cplx));
     (* 802–808 *)
     do '(t6, t1op6) <-
@@ -656,7 +659,7 @@ with parse_complete (fuel : nat) (t : tok) {struct fuel} : res (tok * Z) :=
 (* parse_c_type_from (815): result index and the output *)
 with parse_from (fuel : nat) (input : str) (out : list Z) {struct fuel} : res (list Z * Z) :=
   match fuel with
-  | O => Err E_out_of_fuel O false
+  | O => Err E_out_of_fuel O
   | S f =>
     do '(t1, result) <- parse_complete f (start_tok input out);
     if negb (kind_eqb (t_kind t1) KEnd) then parse_error t1 E_unexpected
@@ -679,7 +682,7 @@ End Parser.
 Definition parse_obs (osz : nat) (cx : ctx) (input : str) : (Z * list Z) + (N * N) :=
   match parse_c_type osz cx input with
   | Ok (out, r) => inl (r, out)
-  | Err e p _ => inr (err_code e, N.of_nat p)
+  | Err e p => inr (err_code e, N.of_nat p)
   | Fault => inr (255%N, 0%N)
   end.
 
